@@ -69,6 +69,8 @@ class Concrete(object):
             self.constants["t"] = CONSTS["t"]
         self.resources = dict(RES) if meta["res"] else {}
         self.attrs = dict(ATTRS) if meta["attrs"] else {}
+        if self.attrs and variant.get("seq_attr") and cfg["kind"] == "df":
+            self.attrs["note"] = ("he", "llo")          # a sequence-valued attribute: recorded whole in every row
         # id <-> kwargs bijection from the spec's enumeration
         self.id_of = {}
         self.id_of_loose = {}
@@ -832,8 +834,13 @@ def check_df(case, conc, variant, df):
             return "row for setting %d carries y=%r" % (i, row["y"])
         if "kattr" in want_cols and row["kattr"] != CONSTS["kattr"]:
             return "constant column wrong"
-        if "note" in want_cols and row["note"] != ATTRS["note"]:
-            return "attrs column wrong"
+        if "note" in want_cols:
+            nv = row["note"]
+            if isinstance(conc.attrs.get("note"), tuple):
+                if not isinstance(nv, (tuple, list)) or tuple(nv) != conc.attrs["note"]:
+                    return "attrs column holds %r in the row of setting %d, the attribute is %r" % (nv, i, conc.attrs["note"])
+            elif nv != ATTRS["note"]:
+                return "attrs column wrong"
         seen.append(i)
     if sorted(seen) != list(range(1, n + 1)):
         return "rows cover settings %r, expected each of 1..%d once" % (sorted(seen)[:12], n)
@@ -858,7 +865,7 @@ def variants_for(case, idx, prop, n_variants):
                  exec=EXEC_STYLES[(k + j) % 3], seed=[True, 3, 11][(k + j) % 3],
                  cases_as_dict=(k % 2 == 0), noshuffle=[False, 0][(k // 3) % 2], case_key_order=(k % 3 == 1),
                  dupkind=k % 3, decoy=(k % 2 == 1), bare_cases=(k % 4 < 2), infer_fn_args=(k % 5 < 2),
-                 grid_order=[None, "desc", None, "rot"][(k + j) % 4], sig_perm=(k % 2 == 1), scalar_overlap=(((k // 7) // 4) % 2 == 1))
+                 grid_order=[None, "desc", None, "rot"][(k + j) % 4], sig_perm=(k % 2 == 1), seq_attr=(k % 3 != 1), scalar_overlap=(((k // 7) // 4) % 2 == 1))
         # numbers next to strings: positional outputs only (a Dataset coordinate would turn them all into strings); the
         # union of such case values has no defined order, so a nested case output is then compared as a multiset
         ok_hs = (not cfg.get("dup")) and cfg["kind"] in ("nested", "flat")
